@@ -694,6 +694,10 @@ class merge_plan:
                 f.mode == "pdepend"
                 for f in islice(stack, stack.index(frame), stack.index(cur_frame))
             ):
+                if not cur_frame.atom.match(frame.current_pkg):
+                    # the slot is being filled by a pkg this atom rejects; that's
+                    # a conflict, not a cycle that satisfies it.
+                    return [cur_frame.atom]
                 # exact same pkg.
                 if frame.mode in ("bdepend", "depend"):
                     # ok, we *must* go vdb if not already; if frame is livefs but
